@@ -1,5 +1,5 @@
 """C16 — decoding and verifying untrusted bytes is total (structural clauses: TAINT, GUARD, CHECKED)."""
-from ..core import norm, callee, walk, mir_callee, AnchorMissing, short
+from ..core import pat_bindings, norm, callee, walk, mir_callee, AnchorMissing, short
 from ..engines import mustcall as mc, reach, hirq, panics, taint
 from .. import tables
 
@@ -149,6 +149,7 @@ def run(ck):
     r2_guards(ck, w)
     r3_checked(ck, w)
     r5_unchecked(ck, w)
+    r6_bincode_limits(ck, w)
 
 
 def switch_mentions(b, i, blk, want_callee=None, want_field=None, want_const=None):
@@ -333,3 +334,41 @@ def taint_pat_names(p):
     for s in p.get('subs', []):
         out |= taint_pat_names(s)
     return out
+
+
+def r6_bincode_limits(ck, w):
+    """bincode entry points that decode a growable collection bound what a length prefix may claim"""
+    ck.rule('C16.R6', 'bincode entry points (decode_from_std_read / decode_from_slice / decode_from_reader) in the workspace: when the decoded type contains a growable '
+                      'collection (its Decode impl reaches the Vec / String / map decoders, which call with_capacity on the announced length) the configuration '
+                      'handed to the decoder carries `with_limit`; a bare `config::standard()` lets a 9-byte input announce 2^64 - 1 elements (capacity overflow '
+                      'panic, or an allocation proportional to an unchecked length field)')
+    cg = w.callgraph()
+    n = 0
+    for f in w.all_fns(['zkir', 'zk_stdlib', 'proofs', 'circuits', 'aggregator']):
+        if '::tests' in f['_nid'] or '/tests' in f['file']:
+            continue
+        for c in hirq.calls(f['body']):
+            cal = callee(c) or ''
+            if not (cal.startswith('bincode::') and 'decode_from' in cal):
+                continue
+            n += 1
+            t = c.get('t') or ''
+            ty = t[t.find('Result<') + 7:].split(',')[0].strip() if 'Result<' in t else ''
+            root = f'<{ty} as bincode::de::Decode>::decode'
+            reach_ = cg.reachable([norm(root)]) if ty else set()
+            growable = any('Decode for alloc::vec::Vec' in x or 'Decode for alloc::string::String' in x or 'Decode for std::collections' in x or
+                           'Decode for alloc::collections' in x for x in reach_) or not reach_
+            cfg = c.get('args', [None, None])[-1]
+            limited = cfg is not None and any(m.get('m') == 'with_limit' for m in hirq.calls(cfg))
+            if cfg is not None and not limited:
+                # the configuration may be bound to a local first
+                for x in walk(cfg):
+                    if x.get('k') == 'local':
+                        for l in walk(f['body']):
+                            if l.get('k') in ('let', 'letx') and 'init' in l and any(b['i'] == x['i'] for b in pat_bindings(l['pat'])):
+                                limited = limited or any(m.get('m') == 'with_limit' for m in hirq.calls(l['init']))
+            ck.record('C16.R6', f'{f["_nid"]}|{short(cal)}', limited or not growable,
+                      'decodes a fixed-size type' if not growable else 'configuration carries with_limit',
+                      f'{f["_nid"]} decodes `{ty}` (contains a growable collection) from untrusted bytes with an unlimited bincode configuration: an announced length '
+                      f'is handed to Vec::with_capacity unchecked', hirq.fn_loc(f, c))
+    ck.floor('C16.R6', 'bincode entry points', n, 2)
